@@ -112,6 +112,8 @@ def run(ctx):
   fi = ctx.func(fq)
   fn = fi.node
   own.check_borrowed(ctx, fq, {'note_sequence': own.NS}, {}, ['note_sequence'])
+  rank_in_sort_key(ctx, fi)       # location-independent rules first
+  note_off_removes_one(ctx, fi)
   try:
     R = discover(ctx, fi)
   except Exception:
@@ -146,6 +148,91 @@ def run(ctx):
         if fname == fi.name and (txt is None or norm_text(st) == txt) and any(needle in t for t in tests):
           ok, why = True, 'allow-listed: ' + reason
     ctx.ob('PAIR/end-total', fi, st, ok, why)
+
+
+def rank_in_sort_key(ctx, fi):
+  """Location-independent: the events are (time, rank, object) tuples whose rank constant fixes the processing order at equal
+  times (pedal down before pedal up before note start before note end).  Wherever such tuples are sorted - in the function or in
+  a helper it calls - the key must contain the rank position after the time; a key of the time alone leaves ties in the order
+  the events happen to be listed, i.e. in storage order (a release listed before a press at the same instant leaves the pedal down)."""
+  fns = [fi] + [fi.module.functions[d] for d in sorted(set(dotted(c.func) or '' for c in U.calls_in(fi.node))) if d in fi.module.functions]
+  for f in fns:
+    fn = f.node
+    # only functions that build rank tuples
+    if not any(isinstance(t, ast.Tuple) and len(t.elts) == 3 and isinstance(t.elts[1], (ast.Name, ast.IfExp)) and
+               any(isinstance(n, ast.Name) and n.id in RANKS for n in ast.walk(t.elts[1])) for t in ast.walk(fn)):
+      continue
+    for c in ast.walk(fn):
+      if not isinstance(c, ast.Call):
+        continue
+      is_sorted = dotted(c.func) == 'sorted'
+      is_sort = isinstance(c.func, ast.Attribute) and c.func.attr == 'sort'
+      if not (is_sorted or is_sort):
+        continue
+      key = next((k.value for k in c.keywords if k.arg == 'key'), None)
+      pos = None
+      if key is None:
+        pos = [0, 1, 2]       # whole-tuple comparison: time, then rank (then the object: not comparable, but the order is fixed before)
+      elif isinstance(key, ast.Call) and (dotted(key.func) or '').split('.')[-1] == 'itemgetter':
+        pos = [U.const_value(a) for a in key.args]
+      elif isinstance(key, ast.Lambda):
+        p = key.args.args[0].arg
+        elts = key.body.elts if isinstance(key.body, ast.Tuple) else [key.body]
+        pos = [U.const_value(e.slice) if isinstance(e, ast.Subscript) and isinstance(e.value, ast.Name) and e.value.id == p else None for e in elts]
+      if pos is None or None in pos:
+        continue
+      ok = pos[:2] == [0, 1]
+      ctx.ob('RANK/rank-in-key', f, c, ok, 'events are sorted by (time, rank)' if ok else
+             'the (time, rank, object) events are sorted by position(s) %s only: events at the same time are processed in the order they were listed - the storage order of the '
+             'control changes and notes - not pedal-down, pedal-up, note-start, note-end' % pos, construct='sort key contains the rank', definite=True)
+
+
+def note_off_removes_one(ctx, fi):
+  """Location-independent: a note that ends while its pedal is up stops being tracked - that note, and only it.  The structure the
+  note starts are appended to (found by `<X>[...].append(<event>)`) may, on the paths taken for a note end, lose the ending event
+  through `.remove(<event>)`; dropping a whole entry there (`X.pop(key)`, `del X[key]`, `X[key] = ...`, `.clear()`) also forgets
+  other notes filed under the same key - e.g. a second note of the same pitch that starts exactly where the first one ends - and
+  those are then not held when the pedal goes down."""
+  fn = fi.node
+  loop = next((n for n in ast.walk(fn) if isinstance(n, ast.For) and isinstance(n.target, ast.Tuple) and len(n.target.elts) == 3 and
+               all(isinstance(e, ast.Name) for e in n.target.elts)), None)
+  if loop is None:
+    return
+  tvar, ev = loop.target.elts[1].id, loop.target.elts[2].id
+  tracked = set()
+  for c in ast.walk(loop):
+    if isinstance(c, ast.Call) and isinstance(c.func, ast.Attribute) and c.func.attr == 'append' and c.args and norm_text(c.args[0]) == ev and isinstance(c.func.value, ast.Subscript) and \
+       isinstance(c.func.value.value, ast.Name):
+      tracked.add(c.func.value.value.id)
+  if not tracked:
+    return
+
+  def on_note_off(st):
+    return any(pol and U.eq_sides(t, lambda a: norm_text(a) == tvar, lambda b: norm_text(b) == '_NOTE_OFF') for t, pol in U.path_conditions(fn, st, stop_at=loop))
+  n = 0
+  for st in U.walk_stmts(loop):
+    if not on_note_off(st):
+      continue
+    drops = []
+    for c in ast.walk(st) if isinstance(st, (ast.Expr, ast.Assign, ast.Delete, ast.AugAssign)) else []:
+      if isinstance(c, ast.Call) and isinstance(c.func, ast.Attribute) and c.func.attr in ('pop', 'popitem', 'clear') and \
+         ((isinstance(c.func.value, ast.Name) and c.func.value.id in tracked) or
+          (isinstance(c.func.value, ast.Subscript) and isinstance(c.func.value.value, ast.Name) and c.func.value.value.id in tracked and c.func.attr == 'clear')):
+        drops.append(c)
+    if isinstance(st, ast.Delete):
+      drops += [t for t in st.targets if isinstance(t, ast.Subscript) and isinstance(t.value, ast.Name) and t.value.id in tracked]
+    if isinstance(st, ast.Assign) and ((isinstance(st.value, (ast.List, ast.Tuple)) and not st.value.elts) or
+                                       (isinstance(st.value, ast.Call) and dotted(st.value.func) in ('list', 'dict', 'set') and not st.value.args)):
+      drops += [t for t in st.targets if isinstance(t, ast.Subscript) and isinstance(t.value, ast.Name) and t.value.id in tracked]
+    for d in drops:
+      n += 1
+      ctx.ob('BRANCH/note-off-removes-one', fi, d, False, 'at a note end, %s drops the whole entry of %s: every note filed under that key stops being tracked, not only the one that '
+             'ends - a same-pitch note starting at that very moment is then not held by a pedal pressed later' % (norm_text(d), sorted(tracked)[0]),
+             construct='a note end removes exactly that note', definite=True)
+  if not n:
+    rem = [c for c in ast.walk(loop) if isinstance(c, ast.Call) and isinstance(c.func, ast.Attribute) and c.func.attr == 'remove' and c.args and norm_text(c.args[0]) == ev]
+    if rem:
+      ctx.ob('BRANCH/note-off-removes-one', fi, rem[0], True, 'a note end removes that note only', construct='a note end removes exactly that note', definite=True)
 
 
 def ranks(ctx, fi, R):
